@@ -84,13 +84,16 @@ def build(t, flags, how, n):
 def net_case(t, tr, prefix, how, n):
     """real listeners: after close()/drop the endpoint refuses, the IPC file is gone, accepted peers see EOF"""
     peer = netgen.PEER[t]
-    ops = [f"sock 1 {t}", f"bind 1 {tr}", f"bind 1 {tr}"]
+    ops = [f"sock 1 {t}", "monitor 1", f"bind 1 {tr}", f"bind 1 {tr}"]
     if "accepted" in prefix:
-        ops += ["rawconn 1 ep#0", f"rawhs 1 {peer}", "rawwait 1 hs", "rawconn 2 ep#1", f"rawhs 2 {peer}", "rawwait 2 hs"]
+        # the `Accepted` events are the barrier: the peers are REGISTERED (not merely answered) before the socket goes away
+        ops += ["rawconn 1 ep#0", f"rawhs 1 {peer}", "rawwait 1 hs", "rawconn 2 ep#1", f"rawhs 2 {peer}", "rawwait 2 hs",
+                "events 1 4"]
     if "traffic" in prefix and t == "PULL":
         ops += ["rawmsg 1 6869", "recv 1"]
     if "pending-handshake" in prefix:
-        ops += ["rawconn 5 ep#0", f"rawhs 5 {peer} 30"]
+        # wait for the library's greeting: the connection has been ACCEPTED and its handshake task runs
+        ops += ["rawconn 5 ep#0", f"rawhs 5 {peer} 30", "rawwait 5 greeting"]
     ops.append("close 1" if how == "close" else "dropsock 1")
     ops += ["probegone ep#0", "probegone ep#1"]
     if "accepted" in prefix:
